@@ -1,6 +1,7 @@
 import TxdbusModel.Base.ExceptEq
 import TxdbusModel.Proofs.Client.LifecycleLost
 import TxdbusModel.Proofs.Client.LifecycleWalk
+import TxdbusModel.Proofs.Client.Endpoints
 /-!
 Property C09 - connecting always concludes; a lost connection fails all pending work once.
 
@@ -141,6 +142,19 @@ theorem endpoint_prefix_table :
     (Txdbus.Gen.C09Endpoints.entrySep, Txdbus.Gen.C09Endpoints.componentSep, Txdbus.Gen.C09Endpoints.keyValueSep) =
       (';', ',', '=') := by decide
 
+/-- The bus address list is cut into its entries in listed order: for entries `pieces` (none containing
+';') joined by ';', the parser walks exactly `pieces`, front to back (`entries` conses the endpoint of
+each entry onto those of the later ones), so the order of the endpoint list handed to `connect` - whose
+walk is `first_reachable_in_order` - is the listed order. -/
+theorem address_list_in_listed_order (env : Env) (pieces : List Str) (hne : pieces ≠ [])
+    (hsep : ∀ p ∈ pieces, ';' ∉ p)
+    (hs : joinWith ';' pieces ≠ "session".toList) (hy : joinWith ';' pieces ≠ "system".toList) :
+    getDBusEndpoints env (joinWith ';' pieces) = entries env.pid pieces none := by
+  have hsep' : Txdbus.Gen.C09Endpoints.entrySep = ';' := by decide
+  simp only [getDBusEndpoints, hs, hy, if_false, hsep']
+  show entries env.pid (splitOn ';' (joinWith ';' pieces)) none = _
+  rw [splitOn_joinWith ';' pieces hne hsep]
+
 /-- A three-entry list of the three kinds parses to its entries, in listed order. -/
 theorem endpoints_example :
     getDBusEndpoints { session := none, system := none, pid := ['7'] }
@@ -223,6 +237,7 @@ theorem prefix_model_violates_self_unregister :
 #print axioms lost_fails_everything_once
 #print axioms endpoint_prefix_table
 #print axioms endpoints_example
+#print axioms address_list_in_listed_order
 #print axioms prefix_model_violates_connect_fires
 #print axioms prefix_model_violates_connect_fires_other
 #print axioms prefix_model_violates_lost_dict_changed_size
